@@ -63,7 +63,16 @@ var Sl = []int{1, 2, 3}
 var IV I = C{}
 var JV J = jimpl{}
 
+type élan struct{ N int }
+
+func newÉlan() élan       { return élan{N: 1} }
+func useÉlan(e élan) int { return e.N }
+
 type One struct{ A int }
+type BlankS struct {
+	A int
+	_ string
+}
 type PSp *S
 
 func mkPSp() PSp { return &S{A: 5} }
@@ -292,6 +301,12 @@ def forms():
     add("dup-param-alias", "dupAlias, NewS")
     add("dup-param-variadic", "dupVar, NewInts")
     add("dup-param-none", "noDup, NewFn1, NewFn2", expect="ok")
+    # the deprecated struct-literal provider form on a struct with a blank field
+    # a type whose name starts with a non-ASCII letter and whose derived variable name is taken (the fall-back name is
+    # built with strings.Title)
+    add("non-ascii-type-name-collision", "newÉlan, useÉlan", expect="ok")
+    add("struct-literal-blank-field", "NewA, BlankS{}", res="BlankS", expect="ok")
+    add("struct-star-blank-field", 'NewA, wire.Struct(new(BlankS), "*")', res="BlankS", expect="ok")
     # ---- injector shapes
     add("injector-extra-stmt", None, body="_ = 1\n\tpanic(wire.Build(NewA))", key="invalid-injector:diagnostic-without-position")
     add("injector-two-builds", None, body="wire.Build(NewA)\n\twire.Build(NewA)\n\treturn 0", key="invalid-injector:diagnostic-without-position")
